@@ -87,3 +87,13 @@ PROPS["C14"] = {
                                   "Masterminds/semver's regular expression is modelled as a recursive-descent parser and validated by differential execution"],
     "assumptions": [],
 }
+
+PROPS["C15"] = {
+    "level": "proof", "harness": "C15", "driver": "C15", "shrink_field": None,
+    "rule": ("cases = generated configurations (all name / version / prerelease / metadata / release / epoch / architecture / override combinations of the package generator) x 5 formats: "
+             "ConventionalFileName on a fresh Info vs the metadata decoded from the package built from the same settings, and the package built after asking for the name vs without asking (bytes); "
+             "the freshly built nfpm binary over 5 formats x 9 target spellings (file with the format's extension, without extension, another format's extension, dotted and upper-case names, existing directory with and without slash, empty) x packager flag given / omitted (exhaustive matrix); "
+             "distinct = distinct YAML documents; non-trivial = at least two content entries"),
+    "trusted_base": PKG_TB + ["the nfpm binary is built from the working tree with `go build ./cmd/nfpm` and run in scratch directories; formats of produced files are recognised by magic bytes"],
+    "assumptions": [],
+}
